@@ -431,6 +431,7 @@ def main_run(mod, tier: str, seed: int, nshards: int | None, only: str | None) -
         results.append(run_shard(mod, tier, seed, 0, 1, only, None))
     else:
         procs = []
+        timed_out: list[int] = []
         for i in range(nshards):
             out = os.path.join(work, f"shard-{i}.json")
             cmd = [sys.executable, "-m", "vlib.main", pid, "--tier", tier, "--shard", f"{i}/{nshards}", "--out", out]
@@ -441,11 +442,24 @@ def main_run(mod, tier: str, seed: int, nshards: int | None, only: str | None) -
                 env.update(mod.shard_env(i, nshards))
             log = open(os.path.join(work, f"shard-{i}.log"), "w")
             procs.append((i, out, subprocess.Popen(cmd, env=env, stdout=log, stderr=subprocess.STDOUT, cwd=VERIF_DIR), log))
+        # watchdog: a shard that exceeds the wall budget is stopped; what the other shards explored is still reported and the
+        # evidence says `truncated` (a time budget hit means inconclusive, never a violation)
+        limit = float(os.environ.get("VERIF_WALL_S", "0") or 0) or {"quick": 1500.0, "thorough": 6 * 3600.0}[tier]
+        deadline = time.time() + limit
         for i, out, p, log in procs:
-            rc = p.wait()
+            try:
+                rc = p.wait(timeout=max(1.0, deadline - time.time()))
+            except subprocess.TimeoutExpired:
+                p.kill()
+                p.wait()
+                rc = -9
+                timed_out.append(i)
             log.close()
             if os.path.exists(out):
                 results.append(json.load(open(out)))
+            elif i in timed_out:
+                print(f"note: shard {i} exceeded the wall budget of {limit:.0f}s and was stopped (run truncated)", file=sys.stderr)
+                results.append({"violations": [], "errors": [], "stats": {}, "truncated": True})
             else:
                 tail = open(os.path.join(work, f"shard-{i}.log")).read()[-3000:]
                 results.append({"violations": [], "errors": [f"shard {i} died rc={rc}: {tail}"], "stats": {}, "truncated": False})
